@@ -1,7 +1,8 @@
 //! C15 contracts (class B: bounded layouts) on the replica selection code sliced from nodes_selector.rs.
-//! Layout: up to NDC data centres x up to NPD nodes each (sizes symbolic, every listed data centre non-empty), the local node is
-//! any node of any data centre, and every data centre's round-robin CURSOR is an arbitrary usize -- cursors are the only state
-//! a selection leaves behind, so an arbitrary cursor vector covers "whatever selections were made before".
+//! Layout: up to NDC data centres x up to NPD nodes each; the SHAPE (sizes, which node is the local one) is concrete per harness
+//! (`sel_<sizes>_<dc><idx>`), the consistency level and every data centre's round-robin CURSOR are symbolic -- cursors are the only
+//! state a selection leaves behind, so an arbitrary cursor vector covers "whatever selections were made before"; the random choice of
+//! data centres is an arbitrary sub-selection. (Symbolic shapes: 13.6 M SAT variables, out of memory; concrete shape: 0.2 M.)
 //! Contract of a selection at level L:
 //!   Ok(nodes)  => no duplicates; the local node is absent; every node is in the current layout;
 //!                 |nodes| >= need(L) (== n for One/Two/Three; per data centre for EachQuorum)
@@ -9,8 +10,8 @@
 use super::*;
 use vcoll::vkey::OpaqueId;
 
-pub const NDC: usize = 2;
-pub const NPD: usize = 2;
+pub const NDC: usize = 3;
+pub const NPD: usize = 3;
 const DC_NAMES: [&str; 3] = ["a", "b", "c"];
 
 #[derive(Clone, Copy)]
@@ -23,26 +24,13 @@ struct Layout {
 fn addr(dc: usize, i: usize) -> SocketAddr {
     OpaqueId(0x1000 | ((dc as u64) << 8) | i as u64)
 }
-/// `local_dc` is CONCRETE per harness (both positions in map order are covered by separate harnesses): a symbolic choice
-/// between two `&'static str` made every `dc == local_dc` comparison a memcmp over a symbolic pointer.
-fn any_layout(local_dc: usize) -> Layout {
-    let mut l = Layout { sizes: [0; NDC], cursors: [0; NDC], local_dc, local_idx: kani::any() };
+/// concrete shape, arbitrary cursors (every value NodeCycler::next can leave behind: 0..=len; anything >= len is reset on the next call)
+fn layout(sizes: [usize; NDC], local_dc: usize, local_idx: usize) -> Layout {
+    let mut l = Layout { sizes, cursors: [0; NDC], local_dc, local_idx };
     let mut d = 0;
     while d < NDC {
-        l.sizes[d] = kani::any();
         l.cursors[d] = kani::any();
-        kani::assume(l.sizes[d] <= NPD);
-        // the values NodeCycler::next can leave behind (anything >= len is reset to 0 on the next call)
-        kani::assume(l.cursors[d] <= NPD);
-        d += 1;
-    }
-    assert!(l.local_dc < NDC);
-    // the local node is a member of its own data centre (membership snapshots always contain the node itself)
-    let mut d = 0;
-    while d < NDC {
-        if d == l.local_dc {
-            kani::assume(l.local_idx < l.sizes[d]);
-        }
+        kani::assume(l.cursors[d] <= l.sizes[d]);
         d += 1;
     }
     l
@@ -126,51 +114,6 @@ fn check_members(l: &Layout, nodes: &Nodes) -> [usize; NDC] {
     per_dc
 }
 
-/// select_n_nodes(n) for n in 1..=3 (levels One / Two / Three)
-#[kani::proof]
-#[kani::unwind(6)]
-fn sel_n_nodes_local_first() {
-    sel_n_nodes(0);
-}
-#[kani::proof]
-#[kani::unwind(6)]
-fn sel_n_nodes_local_last() {
-    sel_n_nodes(NDC - 1);
-}
-fn sel_n_nodes(local_dc: usize) {
-    let l = any_layout(local_dc);
-    let n: usize = kani::any();
-    kani::assume(n >= 1 && n <= 3);
-    let mut dcs = build(&l);
-    let t = total(&l);
-    let r = select_n_nodes(addr(l.local_dc, l.local_idx), local_name(&l), n, t, &mut dcs);
-    match r {
-        Ok(nodes) => {
-            check_members(&l, &nodes);
-            assert!(nodes.len() == n, "exactly n nodes for One / Two / Three");
-            kani::cover!(n == 2, "two selected");
-        },
-        Err(ConsistencyError::NotEnoughNodes { .. }) => {
-            assert!(t - 1 < n, "not-enough-nodes only when fewer than n other live nodes exist");
-            kani::cover!(true, "too few nodes");
-        },
-        Err(_) => panic!("no other error is produced by selection"),
-    }
-}
-
-#[kani::proof]
-#[kani::unwind(6)]
-fn sel_probe_a() {
-    let mut l = any_layout(0);
-    kani::assume(l.sizes[0] == 2 && l.sizes[1] == 2);
-    let n: usize = kani::any();
-    kani::assume(n >= 1 && n <= 3);
-    let mut dcs = build(&l);
-    let r = select_n_nodes(addr(l.local_dc, l.local_idx), local_name(&l), n, 4, &mut dcs);
-    if let Ok(nodes) = r {
-        assert!(nodes.len() == n);
-    }
-}
 fn need_level(l: &Layout, level: Consistency) -> usize {
     let t = total(l);
     match level {
@@ -184,12 +127,9 @@ fn need_level(l: &Layout, level: Consistency) -> usize {
         Consistency::EachQuorum => 0, // checked per data centre below
     }
 }
-fn any_level(quorums_only: bool) -> Consistency {
+fn any_level() -> Consistency {
     let k: u8 = kani::any();
     kani::assume(k < 8);
-    if quorums_only {
-        kani::assume(k == 0 || k >= 4);
-    }
     match k {
         0 => Consistency::None,
         1 => Consistency::One,
@@ -201,20 +141,10 @@ fn any_level(quorums_only: bool) -> Consistency {
         _ => Consistency::EachQuorum,
     }
 }
-/// DCAwareSelector::select_nodes for None / Quorum / LocalQuorum / All / EachQuorum
-#[kani::proof]
-#[kani::unwind(6)]
-fn sel_quorum_levels_local_first() {
-    sel_quorum_levels(0);
-}
-#[kani::proof]
-#[kani::unwind(6)]
-fn sel_quorum_levels_local_last() {
-    sel_quorum_levels(NDC - 1);
-}
-fn sel_quorum_levels(local_dc: usize) {
-    let l = any_layout(local_dc);
-    let level = any_level(true);
+/// DCAwareSelector::select_nodes, every level, from every cursor state, on one concrete shape
+fn selection_contract(sizes: [usize; NDC], local_dc: usize, local_idx: usize) {
+    let l = layout(sizes, local_dc, local_idx);
+    let level = any_level();
     let mut dcs = build(&l);
     let t = total(&l);
     let mut sel = DCAwareSelector::default();
@@ -223,11 +153,13 @@ fn sel_quorum_levels(local_dc: usize) {
         Ok(nodes) => {
             let per_dc = check_members(&l, &nodes);
             assert!(nodes.len() >= need_level(&l, level), "at least as many nodes as the level requires");
-            if level == Consistency::All {
-                assert!(nodes.len() == t - 1, "All = every other member");
-            }
-            if level == Consistency::None {
-                assert!(nodes.len() == 0);
+            match level {
+                Consistency::One => assert!(nodes.len() == 1, "exactly n nodes for One / Two / Three"),
+                Consistency::Two => assert!(nodes.len() == 2, "exactly n nodes for One / Two / Three"),
+                Consistency::Three => assert!(nodes.len() == 3, "exactly n nodes for One / Two / Three"),
+                Consistency::All => assert!(nodes.len() == t - 1, "All = every other member"),
+                Consistency::None => assert!(nodes.len() == 0, "None = nobody"),
+                _ => {},
             }
             if level == Consistency::EachQuorum {
                 let mut d = 0;
@@ -238,15 +170,313 @@ fn sel_quorum_levels(local_dc: usize) {
                     d += 1;
                 }
             }
-            kani::cover!(level == Consistency::Quorum && nodes.len() == 1, "quorum of one");
-            kani::cover!(level == Consistency::All && nodes.len() == 3, "all three others");
         },
         Err(ConsistencyError::NotEnoughNodes { .. }) => {
             assert!(t - 1 < need_level(&l, level), "not-enough-nodes only when fewer than the required number of other live nodes exist");
         },
         Err(_) => panic!("no other error is produced by selection"),
     }
+    // the cursors a selection leaves behind are again values this contract starts from (induction over selection histories)
+    let mut d = 0;
+    while d < NDC {
+        if l.sizes[d] > 0 {
+            let c = dcs.get(DC_NAMES[d]).map(|c| c.cursor);
+            assert!(c.is_some() && c.unwrap() <= l.sizes[d], "cursors stay inside 0..=len");
+        }
+        d += 1;
+    }
+    kani::cover!(true, "shape reachable");
 }
+macro_rules! shape {
+    ($name:ident, $a:expr, $b:expr, $c:expr, $dc:expr, $idx:expr) => {
+        #[kani::proof]
+        #[kani::unwind(12)]
+        fn $name() {
+            selection_contract([$a, $b, $c], $dc, $idx);
+        }
+    };
+}
+shape!(sel_100_00, 1, 0, 0, 0, 0);
+shape!(sel_200_00, 2, 0, 0, 0, 0);
+shape!(sel_200_01, 2, 0, 0, 0, 1);
+shape!(sel_300_00, 3, 0, 0, 0, 0);
+shape!(sel_300_01, 3, 0, 0, 0, 1);
+shape!(sel_300_02, 3, 0, 0, 0, 2);
+shape!(sel_110_00, 1, 1, 0, 0, 0);
+shape!(sel_110_10, 1, 1, 0, 1, 0);
+shape!(sel_120_00, 1, 2, 0, 0, 0);
+shape!(sel_120_10, 1, 2, 0, 1, 0);
+shape!(sel_120_11, 1, 2, 0, 1, 1);
+shape!(sel_130_00, 1, 3, 0, 0, 0);
+shape!(sel_130_10, 1, 3, 0, 1, 0);
+shape!(sel_130_11, 1, 3, 0, 1, 1);
+shape!(sel_130_12, 1, 3, 0, 1, 2);
+shape!(sel_210_00, 2, 1, 0, 0, 0);
+shape!(sel_210_01, 2, 1, 0, 0, 1);
+shape!(sel_210_10, 2, 1, 0, 1, 0);
+shape!(sel_220_00, 2, 2, 0, 0, 0);
+shape!(sel_220_01, 2, 2, 0, 0, 1);
+shape!(sel_220_10, 2, 2, 0, 1, 0);
+shape!(sel_220_11, 2, 2, 0, 1, 1);
+shape!(sel_230_00, 2, 3, 0, 0, 0);
+shape!(sel_230_01, 2, 3, 0, 0, 1);
+shape!(sel_230_10, 2, 3, 0, 1, 0);
+shape!(sel_230_11, 2, 3, 0, 1, 1);
+shape!(sel_230_12, 2, 3, 0, 1, 2);
+shape!(sel_310_00, 3, 1, 0, 0, 0);
+shape!(sel_310_01, 3, 1, 0, 0, 1);
+shape!(sel_310_02, 3, 1, 0, 0, 2);
+shape!(sel_310_10, 3, 1, 0, 1, 0);
+shape!(sel_320_00, 3, 2, 0, 0, 0);
+shape!(sel_320_01, 3, 2, 0, 0, 1);
+shape!(sel_320_02, 3, 2, 0, 0, 2);
+shape!(sel_320_10, 3, 2, 0, 1, 0);
+shape!(sel_320_11, 3, 2, 0, 1, 1);
+shape!(sel_330_00, 3, 3, 0, 0, 0);
+shape!(sel_330_01, 3, 3, 0, 0, 1);
+shape!(sel_330_02, 3, 3, 0, 0, 2);
+shape!(sel_330_10, 3, 3, 0, 1, 0);
+shape!(sel_330_11, 3, 3, 0, 1, 1);
+shape!(sel_330_12, 3, 3, 0, 1, 2);
+shape!(sel_111_00, 1, 1, 1, 0, 0);
+shape!(sel_111_10, 1, 1, 1, 1, 0);
+shape!(sel_111_20, 1, 1, 1, 2, 0);
+shape!(sel_112_00, 1, 1, 2, 0, 0);
+shape!(sel_112_10, 1, 1, 2, 1, 0);
+shape!(sel_112_20, 1, 1, 2, 2, 0);
+shape!(sel_112_21, 1, 1, 2, 2, 1);
+shape!(sel_113_00, 1, 1, 3, 0, 0);
+shape!(sel_113_10, 1, 1, 3, 1, 0);
+shape!(sel_113_20, 1, 1, 3, 2, 0);
+shape!(sel_113_21, 1, 1, 3, 2, 1);
+shape!(sel_113_22, 1, 1, 3, 2, 2);
+shape!(sel_121_00, 1, 2, 1, 0, 0);
+shape!(sel_121_10, 1, 2, 1, 1, 0);
+shape!(sel_121_11, 1, 2, 1, 1, 1);
+shape!(sel_121_20, 1, 2, 1, 2, 0);
+shape!(sel_122_00, 1, 2, 2, 0, 0);
+shape!(sel_122_10, 1, 2, 2, 1, 0);
+shape!(sel_122_11, 1, 2, 2, 1, 1);
+shape!(sel_122_20, 1, 2, 2, 2, 0);
+shape!(sel_122_21, 1, 2, 2, 2, 1);
+shape!(sel_123_00, 1, 2, 3, 0, 0);
+shape!(sel_123_10, 1, 2, 3, 1, 0);
+shape!(sel_123_11, 1, 2, 3, 1, 1);
+shape!(sel_123_20, 1, 2, 3, 2, 0);
+shape!(sel_123_21, 1, 2, 3, 2, 1);
+shape!(sel_123_22, 1, 2, 3, 2, 2);
+shape!(sel_131_00, 1, 3, 1, 0, 0);
+shape!(sel_131_10, 1, 3, 1, 1, 0);
+shape!(sel_131_11, 1, 3, 1, 1, 1);
+shape!(sel_131_12, 1, 3, 1, 1, 2);
+shape!(sel_131_20, 1, 3, 1, 2, 0);
+shape!(sel_132_00, 1, 3, 2, 0, 0);
+shape!(sel_132_10, 1, 3, 2, 1, 0);
+shape!(sel_132_11, 1, 3, 2, 1, 1);
+shape!(sel_132_12, 1, 3, 2, 1, 2);
+shape!(sel_132_20, 1, 3, 2, 2, 0);
+shape!(sel_132_21, 1, 3, 2, 2, 1);
+shape!(sel_133_00, 1, 3, 3, 0, 0);
+shape!(sel_133_10, 1, 3, 3, 1, 0);
+shape!(sel_133_11, 1, 3, 3, 1, 1);
+shape!(sel_133_12, 1, 3, 3, 1, 2);
+shape!(sel_133_20, 1, 3, 3, 2, 0);
+shape!(sel_133_21, 1, 3, 3, 2, 1);
+shape!(sel_133_22, 1, 3, 3, 2, 2);
+shape!(sel_211_00, 2, 1, 1, 0, 0);
+shape!(sel_211_01, 2, 1, 1, 0, 1);
+shape!(sel_211_10, 2, 1, 1, 1, 0);
+shape!(sel_211_20, 2, 1, 1, 2, 0);
+shape!(sel_212_00, 2, 1, 2, 0, 0);
+shape!(sel_212_01, 2, 1, 2, 0, 1);
+shape!(sel_212_10, 2, 1, 2, 1, 0);
+shape!(sel_212_20, 2, 1, 2, 2, 0);
+shape!(sel_212_21, 2, 1, 2, 2, 1);
+shape!(sel_213_00, 2, 1, 3, 0, 0);
+shape!(sel_213_01, 2, 1, 3, 0, 1);
+shape!(sel_213_10, 2, 1, 3, 1, 0);
+shape!(sel_213_20, 2, 1, 3, 2, 0);
+shape!(sel_213_21, 2, 1, 3, 2, 1);
+shape!(sel_213_22, 2, 1, 3, 2, 2);
+shape!(sel_221_00, 2, 2, 1, 0, 0);
+shape!(sel_221_01, 2, 2, 1, 0, 1);
+shape!(sel_221_10, 2, 2, 1, 1, 0);
+shape!(sel_221_11, 2, 2, 1, 1, 1);
+shape!(sel_221_20, 2, 2, 1, 2, 0);
+shape!(sel_222_00, 2, 2, 2, 0, 0);
+shape!(sel_222_01, 2, 2, 2, 0, 1);
+shape!(sel_222_10, 2, 2, 2, 1, 0);
+shape!(sel_222_11, 2, 2, 2, 1, 1);
+shape!(sel_222_20, 2, 2, 2, 2, 0);
+shape!(sel_222_21, 2, 2, 2, 2, 1);
+shape!(sel_223_00, 2, 2, 3, 0, 0);
+shape!(sel_223_01, 2, 2, 3, 0, 1);
+shape!(sel_223_10, 2, 2, 3, 1, 0);
+shape!(sel_223_11, 2, 2, 3, 1, 1);
+shape!(sel_223_20, 2, 2, 3, 2, 0);
+shape!(sel_223_21, 2, 2, 3, 2, 1);
+shape!(sel_223_22, 2, 2, 3, 2, 2);
+shape!(sel_231_00, 2, 3, 1, 0, 0);
+shape!(sel_231_01, 2, 3, 1, 0, 1);
+shape!(sel_231_10, 2, 3, 1, 1, 0);
+shape!(sel_231_11, 2, 3, 1, 1, 1);
+shape!(sel_231_12, 2, 3, 1, 1, 2);
+shape!(sel_231_20, 2, 3, 1, 2, 0);
+shape!(sel_232_00, 2, 3, 2, 0, 0);
+shape!(sel_232_01, 2, 3, 2, 0, 1);
+shape!(sel_232_10, 2, 3, 2, 1, 0);
+shape!(sel_232_11, 2, 3, 2, 1, 1);
+shape!(sel_232_12, 2, 3, 2, 1, 2);
+shape!(sel_232_20, 2, 3, 2, 2, 0);
+shape!(sel_232_21, 2, 3, 2, 2, 1);
+shape!(sel_233_00, 2, 3, 3, 0, 0);
+shape!(sel_233_01, 2, 3, 3, 0, 1);
+shape!(sel_233_10, 2, 3, 3, 1, 0);
+shape!(sel_233_11, 2, 3, 3, 1, 1);
+shape!(sel_233_12, 2, 3, 3, 1, 2);
+shape!(sel_233_20, 2, 3, 3, 2, 0);
+shape!(sel_233_21, 2, 3, 3, 2, 1);
+shape!(sel_233_22, 2, 3, 3, 2, 2);
+shape!(sel_311_00, 3, 1, 1, 0, 0);
+shape!(sel_311_01, 3, 1, 1, 0, 1);
+shape!(sel_311_02, 3, 1, 1, 0, 2);
+shape!(sel_311_10, 3, 1, 1, 1, 0);
+shape!(sel_311_20, 3, 1, 1, 2, 0);
+shape!(sel_312_00, 3, 1, 2, 0, 0);
+shape!(sel_312_01, 3, 1, 2, 0, 1);
+shape!(sel_312_02, 3, 1, 2, 0, 2);
+shape!(sel_312_10, 3, 1, 2, 1, 0);
+shape!(sel_312_20, 3, 1, 2, 2, 0);
+shape!(sel_312_21, 3, 1, 2, 2, 1);
+shape!(sel_313_00, 3, 1, 3, 0, 0);
+shape!(sel_313_01, 3, 1, 3, 0, 1);
+shape!(sel_313_02, 3, 1, 3, 0, 2);
+shape!(sel_313_10, 3, 1, 3, 1, 0);
+shape!(sel_313_20, 3, 1, 3, 2, 0);
+shape!(sel_313_21, 3, 1, 3, 2, 1);
+shape!(sel_313_22, 3, 1, 3, 2, 2);
+shape!(sel_321_00, 3, 2, 1, 0, 0);
+shape!(sel_321_01, 3, 2, 1, 0, 1);
+shape!(sel_321_02, 3, 2, 1, 0, 2);
+shape!(sel_321_10, 3, 2, 1, 1, 0);
+shape!(sel_321_11, 3, 2, 1, 1, 1);
+shape!(sel_321_20, 3, 2, 1, 2, 0);
+shape!(sel_322_00, 3, 2, 2, 0, 0);
+shape!(sel_322_01, 3, 2, 2, 0, 1);
+shape!(sel_322_02, 3, 2, 2, 0, 2);
+shape!(sel_322_10, 3, 2, 2, 1, 0);
+shape!(sel_322_11, 3, 2, 2, 1, 1);
+shape!(sel_322_20, 3, 2, 2, 2, 0);
+shape!(sel_322_21, 3, 2, 2, 2, 1);
+shape!(sel_323_00, 3, 2, 3, 0, 0);
+shape!(sel_323_01, 3, 2, 3, 0, 1);
+shape!(sel_323_02, 3, 2, 3, 0, 2);
+shape!(sel_323_10, 3, 2, 3, 1, 0);
+shape!(sel_323_11, 3, 2, 3, 1, 1);
+shape!(sel_323_20, 3, 2, 3, 2, 0);
+shape!(sel_323_21, 3, 2, 3, 2, 1);
+shape!(sel_323_22, 3, 2, 3, 2, 2);
+shape!(sel_331_00, 3, 3, 1, 0, 0);
+shape!(sel_331_01, 3, 3, 1, 0, 1);
+shape!(sel_331_02, 3, 3, 1, 0, 2);
+shape!(sel_331_10, 3, 3, 1, 1, 0);
+shape!(sel_331_11, 3, 3, 1, 1, 1);
+shape!(sel_331_12, 3, 3, 1, 1, 2);
+shape!(sel_331_20, 3, 3, 1, 2, 0);
+shape!(sel_332_00, 3, 3, 2, 0, 0);
+shape!(sel_332_01, 3, 3, 2, 0, 1);
+shape!(sel_332_02, 3, 3, 2, 0, 2);
+shape!(sel_332_10, 3, 3, 2, 1, 0);
+shape!(sel_332_11, 3, 3, 2, 1, 1);
+shape!(sel_332_12, 3, 3, 2, 1, 2);
+shape!(sel_332_20, 3, 3, 2, 2, 0);
+shape!(sel_332_21, 3, 3, 2, 2, 1);
+shape!(sel_333_00, 3, 3, 3, 0, 0);
+shape!(sel_333_01, 3, 3, 3, 0, 1);
+shape!(sel_333_02, 3, 3, 3, 0, 2);
+shape!(sel_333_10, 3, 3, 3, 1, 0);
+shape!(sel_333_11, 3, 3, 3, 1, 1);
+shape!(sel_333_12, 3, 3, 3, 1, 2);
+shape!(sel_333_20, 3, 3, 3, 2, 0);
+shape!(sel_333_21, 3, 3, 3, 2, 1);
+shape!(sel_333_22, 3, 3, 3, 2, 2);
+
+/// `Op::SetNodes` (the membership update reaching the selector): afterwards the layout is EXACTLY the new one -- a data centre that is
+/// not in the update is gone (so nodes and whole data centres that left are never selected again), every listed data centre holds
+/// exactly the listed nodes with a fresh cursor, the total is the sum, and the selection cache is emptied.
+/// Old layout: data centres a (2 nodes) and b (1 node) with arbitrary cursors; new layout: one of five concrete updates (one harness each).
+fn set_nodes_contract(which: u8) {
+    let old = layout([2, 1, 0], 0, 0);
+    let dcs = build(&old);
+    // new sizes per data centre a, b, c (node j of data centre d is addr(d, j + 1): the node sets differ from the old ones)
+    let new_sizes: [usize; NDC] = match which {
+        0 => [0, 0, 0],
+        1 => [1, 0, 0],
+        2 => [0, 2, 1],
+        3 => [2, 1, 0],
+        _ => [0, 0, 3],
+    };
+    let mut update: BTreeMap<Cow<'static, str>, Nodes> = BTreeMap::new();
+    let mut d = 0;
+    while d < NDC {
+        if new_sizes[d] > 0 {
+            let mut nodes = Nodes::new();
+            let mut i = 0;
+            while i < NPD {
+                if i < new_sizes[d] {
+                    nodes.push(addr(d, i + 1));
+                }
+                i += 1;
+            }
+            update.insert(Cow::Borrowed(DC_NAMES[d]), nodes);
+        }
+        d += 1;
+    }
+    let stale_total: usize = kani::any();
+    let (after, total_nodes, cache) = set_nodes_arm(update, dcs, stale_total, crate::env::CacheStub { entries: 3 });
+    let mut d = 0;
+    let mut ndc = 0;
+    let mut sum = 0;
+    while d < NDC {
+        let got = after.get(DC_NAMES[d]);
+        if new_sizes[d] > 0 {
+            assert!(got.is_some(), "every data centre of the update is installed");
+            let c = got.unwrap();
+            assert!(c.len() == new_sizes[d], "with exactly the listed nodes");
+            let mut i = 0;
+            while i < NPD {
+                if i < new_sizes[d] {
+                    assert!(c.get_nodes().contains(&addr(d, i + 1)), "with exactly the listed nodes");
+                }
+                i += 1;
+            }
+            assert!(c.cursor == 0, "and a fresh cursor");
+            ndc += 1;
+            sum += new_sizes[d];
+        } else {
+            assert!(got.is_none(), "a data centre that left is no longer selectable");
+        }
+        d += 1;
+    }
+    assert!(after.len() == ndc, "nothing but the update's data centres remains");
+    assert!(total_nodes == sum, "the total is the number of nodes in the update");
+    assert!(cache.entries == 0, "cached selections are dropped");
+    kani::cover!(true, "update reachable");
+}
+macro_rules! set_nodes_case {
+    ($name:ident, $w:expr) => {
+        #[kani::proof]
+        #[kani::unwind(12)]
+        fn $name() {
+            set_nodes_contract($w);
+        }
+    };
+}
+set_nodes_case!(sel_set_nodes_0, 0);
+set_nodes_case!(sel_set_nodes_1, 1);
+set_nodes_case!(sel_set_nodes_2, 2);
+set_nodes_case!(sel_set_nodes_3, 3);
+set_nodes_case!(sel_set_nodes_4, 4);
 
 // native replay of Kani counterexamples (tools/replay.py writes the file)
 #[cfg(verif_replay)]
